@@ -28,11 +28,22 @@ impl Parser for Typst {
         let mut buf = Vec::new();
         let exprs = typst_tree.exprs().collect_vec();
         let exprs = convert_parbreaks(&mut buf, &exprs);
-        exprs
+        let mut tokens = exprs
             .into_iter()
             .filter_map(|ex| parse_helper.parse_expr(ex, OffsetCursor::new(&typst_document)))
             .flatten()
-            .collect_vec()
+            .collect_vec();
+
+        // For incomplete input typst-syntax hands out the same node through more than one
+        // accessor (e.g. the name of a named argument whose value is missing doubles as its
+        // value), so a node can be translated twice or out of source order. The rest of Harper
+        // relies on tokens that are ordered and do not overlap.
+        tokens.sort_by_key(|t| t.span.start);
+        tokens.dedup_by(|later, earlier| {
+            later.span == earlier.span || later.span.overlaps_with(earlier.span)
+        });
+
+        tokens
     }
 }
 
